@@ -141,8 +141,8 @@ def _worker(job):
     return rec
 
 
-def run_stream(ctx, observers, names=None, nvariants=1, opts=None, procs=None):
-    """returns list of per-program records"""
+def run_stream(ctx, observers, names=None, nvariants=1, opts=None, procs=None, extra=None):
+    """returns list of per-program records; `extra` = further programs (pool.REGRESSION) run without variants, depth 1"""
     import pool
 
     opts = dict(opts or {})
@@ -152,6 +152,11 @@ def run_stream(ctx, observers, names=None, nvariants=1, opts=None, procs=None):
     for (k, src) in items:
         for vi, s in enumerate(variants(src, rng, nvariants)):
             jobs.append((k if vi == 0 else f"{k}~{vi}", s, ctx.seed, observers, opts))
+    for (k, src) in (extra or {}).items():
+        if names is None or k in names:
+            # depth 1 only: every attempt on the program itself is enumerated (no sampling), which is what a
+            # regression case needs; deeper schedules start from the results of recorded defects
+            jobs.append((k, src, ctx.seed, observers, dict(opts, depth=1)))
     nproc = procs or min(16, os.cpu_count() or 4)
     with mp.get_context("spawn").Pool(nproc) as pl:
         ar = pl.map_async(_worker, jobs, chunksize=1)
